@@ -1621,6 +1621,25 @@ class Interp:
 
     def e_for(self, e):
         it = self.eval(e["e"])
+        if isinstance(it, PyIter):
+            # a consuming iterator (e.g. `for c in chars.by_ref()`): each element is removed when the loop takes it, so what a `break`
+            # leaves behind is still there for the code after the loop
+            while len(it):
+                x = it.pop(0)
+                self.scopes.append({})
+                try:
+                    m = self.match(x, e["pat"])
+                    for n, v in (m or {}).items():
+                        self.bind(n, v)
+                    try:
+                        self.block(e["b"], new_scope=False)
+                    except Continue:
+                        pass
+                except Break:
+                    break
+                finally:
+                    self.scopes.pop()
+            return ("tuple", [])
         if isinstance(it, MutList):
             it = ("list", list(it))
         if isinstance(it, tuple) and it[:1] == ("bytesof",):
